@@ -59,6 +59,14 @@ def gen_case(rng):
             es.append(('A', []))
         else:
             es.append(('A', [(pick(rng, KEYS), ('junk', pick(rng, [1, 'x', None])))]))
+    if isinstance(what, dict) and rng.random() < 0.12:
+        # an attribute the value does NOT have, guarded by a rule that is satisfied by anything / nothing / falsy values,
+        # next to attributes it has: a missing attribute never matches, whatever its rule is
+        missing = pick(rng, [k for k in KEYS + ['zz', 'missing'] if k not in what] or ['zz'])
+        kvs = [(k, _true_rule(rng, what[k], inq)) for k in list(what)[:rng.randint(0, 2)]]
+        kvs.insert(rng.randint(0, len(kvs)), (missing, pick(rng, [('any',), ('any',), ('neither',), ('falsy',), ('eq', None),
+                                                                  ('not', ('truthy',)), ('eq', 0), ('ne', 'x')])))
+        es.insert(rng.randint(0, len(es)), ('A', kvs))
     if es and rng.random() < 0.5:
         # a matching element at a chosen position, non-matching ones around it
         i = rng.randrange(len(es))
@@ -91,9 +99,17 @@ def run(ctx):
         cases.append((pol, f, what_real, inq, pobj, iobj, line))
     model = ctx.driver.run([c[6] for c in cases]) if ctx.driver else [None] * len(cases)
     ch = RulesChecker()
+    import collections
     for (pol, f, what, inq, pobj, iobj, line), m in zip(cases, model):
         out.evaluations += 1
         fname = FIELDS[f][0]
+        plain = what
+        if type(what) is dict and rng.random() < 0.2:
+            # the same dictionary as a dict subclass that answers look-ups of missing keys (defaultdict / Counter):
+            # an attribute it does not contain is still missing
+            what = pick(rng, [lambda d: collections.defaultdict(lambda: None, d), lambda d: collections.defaultdict(int, d),
+                              lambda d: collections.defaultdict(str, d), lambda d: collections.Counter(d)])(what)
+            out.count('dict-subclass-value')
         try:
             a = ch.fits(pobj, fname, what, iobj)
             impl = 'ok T' if a else 'ok F'
@@ -101,6 +117,8 @@ def run(ctx):
         except Exception as e:
             impl = 'raise'
             strict = True
+        mutated = what is not plain and dict(what) != plain
+        what = plain
         elems = getattr(pobj, fname)
         oks = [elem_ok(e, what, iobj) for e in elems]
         want = 'ok T' if any(oks) else 'ok F'
@@ -114,7 +132,11 @@ def run(ctx):
         if any(oks):
             out.count('match-pos:%d' % oks.index(True))
         fail = None
-        if impl != want:
+        if mutated:
+            fail = Failure('oracle', desc, impl, m, 'checking the field changed the inquiry value (a dict subclass with '
+                           '__missing__ got new keys)', 'Vakt.C04.rules_field_iff (a missing attribute is not looked up)', line=line)
+            fail.signature = 'value-mutated'
+        elif impl != want:
             fail = Failure('oracle', desc, impl, m, 'direct oracle (OR over elements, AND over attributes, errors never '
                            'match) says ' + want, 'Vakt.C04.rules_field_iff / rules_total', line=line)
             fail.signature = 'oracle'
